@@ -157,8 +157,9 @@ PeerMix(I) ==
       plain == {x \in AllSlices(I) : x.kind = "down" /\ x.full}
       a == {<<q[1].p, q[2].p, q[1].src, q[2].dst>> : q \in {q \in ups \X dns : q[1].far = q[2].at}}      \* includes the mirror pairs
       b == {<<q[1].p, q[2].p, q[1].src, q[2].end>> : q \in {q \in ups \X plain : q[1].far = q[2].start /\ q[2].p.cd}}
-      c == {<<q[1].p, q[2].p, q[1].hops[1].as, q[2].dst>> :
-               q \in {q \in {x.p : x \in {x \in plain : ~x.p.cd}} \X dns : TRUE}}
+      \* a plain up piece continued by a down-peer piece of the AS it ends in (no peering link in between)
+      c == {<<q[1].p, q[2].p, q[1].start, q[2].dst>> :
+               q \in {q \in {x \in plain : ~x.p.cd} \X dns : q[1].end = q[2].at}}
       two == IF ATK_LEVEL >= 2 THEN a \cup b \cup c ELSE a \cup b
   IN {LET pk == MkPkt(<<t[1], t[2]>>, t[3], t[4]) IN MkAtk("peermix", TRUE, pk, pk.src, 0, PktMaxTs(pk), {}, 0) : t \in two}
      \cup {LET pk == MkPkt(<<u.p>>, u.src, u.far) IN MkAtk("peermix", TRUE, pk, pk.src, 0, PktMaxTs(pk), {}, 1) : u \in ups}
